@@ -43,7 +43,7 @@ def units(tier):
     return us
 
 
-OPTS = {'quick': {'max_paths': 6000}}
+OPTS = {'quick': {'max_paths': 6000, 'unit_timeout_s': 900}, 'thorough': {'max_paths': 40000, 'unit_timeout_s': 3000}}
 
 
 
